@@ -60,7 +60,7 @@ run, replay = P.run, P.replay
 
 
 # ------------------------------------------------------------------ the same numbers stored in another dtype
-from oracles import dtype_independence, merge_oracle
+from oracles import dtype_independence, merge_oracle, history_independence
 from common import np, dnp
 DTYPE_CASES = [("integrate", lambda d, dim: dnp.integrate(d, dim), "t2"),
     ("integrate-regions", lambda d, dim: dnp.integrate(d, dim, regions=[(1.0, 7.0), (4.0, 12.0)]), "t2"),
@@ -79,7 +79,9 @@ def run(tier, seed, escalate=False):
     the processed axis give the result of the float64 object (a dtype the function refuses is not judged)"""
     res = _run_before_dtype(tier, seed, escalate)
     f, n = dtype_independence("C12", DTYPE_CASES, seed, dim_positions=(1,) if tier == "quick" and not escalate else (0, 1, 2))
-    return merge_oracle(res, f, n, "storage_dtype_variants")
+    res = merge_oracle(res, f, n, "storage_dtype_variants")
+    f, n = history_independence("C12", DTYPE_CASES, seed)
+    return merge_oracle(res, f, n, "call_history_cases")
 
 
 # ------------------------------------------------------------------ the same axis in another unit
